@@ -11,6 +11,7 @@ EXPLANATION = (
     'once per goal item and zipped positionally with the trees; the failure placeholder carries -inf. '
     'Float accumulation order is not decided.'
     ' Goal collection / status (only goal items are delivered with their score), the positional callbacks and the call-local rule cache are part of this check as well.'
+    ' Third round: the Tree factories store what they are given and retrieve_tree takes label, symbol and head flag from the cached rule result, so the tree returned carries the head flags the score was computed with.'
 )
 TRUSTED = ['clang-14 front end', 'CPython ast', 'sa/pyx.py normaliser', 'rule table DESIGN.md C09']
 
@@ -35,7 +36,8 @@ def check(repo, rep, tier):
                   'the goal item\'s outside estimate is the literal 0, so score() is the inside score',
                   'goal item out_score is not 0')
     rc.r_nbest(m, rep, 'R9.3')
-    rp.r_retrieve_tree(repo, rep, 'R9.3', {'score', 'shape'})
+    rp.r_retrieve_tree(repo, rep, 'R9.3', {'score', 'shape', 'labels'})
+    rp.r_tree_factories(repo, rep, 'R9.2')  # the returned tree carries the head flags the search scored with: the factories store what they are given
     rc.r_search_loop(m, rep, 'R9.3')       # only goal items (full span, allowed root, out 0) are delivered with their score
     rc.r_guards(m, rep, 'R9.3')
     ti = rp.r_category_table(repo, rep, 'R9.3')
